@@ -859,8 +859,11 @@ class StrategyBase(Node):
         if self._paper_trade:
             if newpt:
                 self._paper.update(date)
-                self._paper.run()
-                self._paper.update(date)
+                # like the backtest loop, stop running the algos of a copy
+                # that went bankrupt
+                if not self._paper.bankrupt:
+                    self._paper.run()
+                    self._paper.update(date)
             # update price
             self._price = self._paper.price
             self._prices.array[inow] = self._price
